@@ -1,4 +1,5 @@
 import SeqVerif.Model.ParserTok
+import SeqVerif.Model.SeqQLFilterLemmas
 import SeqVerif.Extracted.C12
 /-!
 # C12 - query parsing is total and preserves the boolean meaning of the query
@@ -205,6 +206,114 @@ theorem c12_total_old_partial (mx : Option Nat) (m : Nat → FType) (hm : ∀ fi
   exact ⟨(c12_total_skeleton (tokSeqQL true mx m) (tokSeqQL_good true mx m) (fun t => (hA t).1) pipesOk toks).1.1,
     (c12_total_skeleton (tokLegacy true mx m) (tokLegacy_good true mx m) (fun t => (hA t).2) (fun _ => by simp [tokLegacy]) toks).2.1⟩
 
+/-- `not not ... not a` with `k` NOTs -/
+def notChain (k : Nat) (fid : Nat) : List Tok := List.replicate k Tok.not ++ [.atom 0 fid .plain]
+def notTree : Nat → Ast Nat
+  | 0 => .leaf 0
+  | k+1 => .not (notTree k)
+
+/-- **Historical counterexample to bounded recursion** (the code before fix d02c6b6, no nesting limit): for every `k`
+the query `not`^k `a` is accepted and yields a tree of depth `k`, i.e. the sub-expression parser nests `k + 1`
+activations - no bound on the stack (2 MB of `(` killed the process).  With a limit `mx` the same query is an error
+as soon as `k ≥ mx` (`c12_nesting_bounded`). -/
+theorem c12_nesting_old_unbounded (dp : Bool) (m : Nat → FType) (fid : Nat) (hf : (m fid).searchable = true) (k : Nat) :
+    sqParseRaw (tokSeqQL dp none m) (notChain k fid) = .ok (notTree k) ∧
+    lgParseRaw (tokLegacy dp none m) (notChain k fid) = .ok (notTree k) := by
+  have gS : ∀ k, G (tokSeqQL dp none m) (fun _ => True) 2 true (k + 1) (notChain k fid) (notTree k) := by
+    intro k
+    induction k with
+    | zero => exact (atom_G_seqql dp none m fid hf true 0).mono (Nat.le_refl _)
+    | succ k ih => exact G.not (Nat.le_refl _) rfl ih
+  have gL : ∀ k, G (tokLegacy dp none m).legacy (fun _ => True) 2 true (k + 1) (notChain k fid) (notTree k) := by
+    intro k
+    induction k with
+    | zero => exact (atom_G_legacy dp none m fid hf true 0).mono (Nat.le_refl _)
+    | succ k ih => exact G.not (Nat.le_refl _) rfl ih
+  exact ⟨(c12_seqql_precedence (tokSeqQL_good dp none m) ((gS k).lift (Nat.zero_le 2)) trivial).1,
+    (c12_legacy_precedence (tokLegacy_good dp none m) ((gL k).lift (Nat.zero_le 2)) trivial).1⟩
+
+/-! ## the whole SeqQL parser over the lexer's token stream (level B)
+
+`SV.Parser.parseSeqQL` (Model/SeqQLFilter.lean) is `ParseSeqQL` with everything below the lexer modelled: composite
+tokens, field filters, ranges, in-lists, the keyword / text term builders, pipes, the skeleton and `propagateNot`.
+A token carries the lexer's flags, the answers of `strings.EqualFold` for the parser's keywords and, per rune, what
+Go's `unicode` tables say - all of these are universally quantified below. -/
+
+/-- **Totality of `ParseSeqQL` above the lexer**: for every list of lexer tokens (any runes, any flags, any keyword
+answers), every mapping (nil, or any assignment of index types to field names), either case setting and any nesting
+limit, the parser returns a query or an error: no `panic` statement is reachable (neither the type switch's old
+`default:` - repaired - nor `BUG: lexer is not end`) and every loop terminates (the fuel is never exhausted). -/
+theorem c12_total_lexer_tokens (cs : Bool) (mapping : Option (List (List Nat × FT))) (mx : Option Nat) (toks : List LTok) :
+    parseSeqQL ⟨false, cs, mapping⟩ mx toks ≠ .panic ∧ parseSeqQL ⟨false, cs, mapping⟩ mx toks ≠ .oof := by
+  let c : Cfg := ⟨false, cs, mapping⟩
+  have hS := seqqlSkel_good c mx
+  have hf := ((sq_spec (seqqlSkel c mx) hS (fuelFor toks)).2.1 toks 0 0 (by simp [fuelFor])).1
+  have hp := (sq_nopanic (seqqlSkel c mx) (fun t => (fieldFilter_ne c t).2 rfl) (fuelFor toks)).2.1 toks 0 0
+  unfold parseSeqQL
+  cases hres : sqFilter (seqqlSkel c mx) (fuelFor toks) toks 0 0 with
+  | ok p =>
+    obtain ⟨a, r⟩ := p
+    simp only [PRes.bind_ok]
+    cases r with
+    | nil => simp
+    | cons t r' =>
+      simp only
+      have hstop := sqFilter_rest (seqqlSkel c mx) _ _ _ _ _ _ hres
+      rcases hstop with h0 | ⟨t0, r0, h0, hk | ⟨_, hd⟩⟩
+      · simp at h0
+      · simp only [List.cons.injEq] at h0
+        obtain ⟨rfl, rfl⟩ := h0
+        have hk' : t.kind = K.pipe := hk
+        simp only [hk', if_true]
+        have := pipes_spec (t :: r').length 0 [] (t :: r') (Nat.le_refl _)
+        exact ⟨PRes.bind_ne_panic' this.2 (fun _ _ => by simp), PRes.bind_ne_oof this.1 (fun _ _ => by simp)⟩
+      · omega
+  | err => simp
+  | panic => exact absurd hres hp
+  | oof => exact absurd hres hf
+
+/-- ... in particular for the switch default and the nesting limit read from the source on this run -/
+theorem c12_total_lexer_tokens_extracted (cs : Bool) (mapping : Option (List (List Nat × FT))) (toks : List LTok) :
+    parseSeqQL ⟨SV.Extracted.C12.seqqlDefaultPanics, cs, mapping⟩ SV.Extracted.C12.seqqlMaxNest toks ≠ .panic ∧
+    parseSeqQL ⟨SV.Extracted.C12.seqqlDefaultPanics, cs, mapping⟩ SV.Extracted.C12.seqqlMaxNest toks ≠ .oof := by
+  have hS : SV.Extracted.C12.seqqlDefaultPanics = false := by decide
+  rw [hS]
+  exact c12_total_lexer_tokens cs mapping _ toks
+
+/-- **Precedence above the lexer**: any token sequence of the reference grammar whose atoms are sequences the real
+field-filter parser accepts (`G` over `seqqlSkel`) is parsed to the tree it denotes; with `sep` one states which
+tokens may follow a filter (a space before `and` / `or`, or a non-composite token such as `)` and `|`). -/
+theorem c12_lexer_tokens_precedence (c : Cfg) (mx : Option Nat) {sep : LTok → Prop} {k : Nat} {ts : List LTok} {e : Ast Leaf}
+    (h : G (seqqlSkel c mx) sep 0 true k ts e) (hk : (seqqlSkel c mx).fits k) :
+    parseSeqQL c mx ts = .ok (finish e, []) ∧ ∀ env, (finish e).eval env = e.eval env := by
+  have h1 : sqFilter (seqqlSkel c mx) (fuelFor ts) ts 0 0 = .ok (e, []) := by
+    have := sqFilter_complete (seqqlSkel_good c mx) h [] 0 (fuelFor ts) 0 (by simp) (Or.inl rfl) (Or.inl rfl)
+      (by simpa using hk) (by simp [fuelFor])
+    simpa using this
+  exact ⟨by simp [parseSeqQL, h1], fun env => finish_sound env e h.noNand⟩
+
+/-- **several words on a text field are a conjunction**: whatever value `parseFulltextSearchFilter` reads for a text
+field, the node it returns selects exactly the documents selected by every literal `parseSeqQLText` makes of it -/
+theorem c12_text_is_conjunction (dp cs : Bool) (field : List Nat) (toks rest : List LTok) (a : Ast Leaf)
+    (h : fulltextFilter dp field .text cs toks = .ok (a, rest)) :
+    ∃ value, compositeToken toks = .ok (value, rest) ∧
+      ∀ env, a.eval env = (seqqlText cs value).all fun terms => env (.lit field terms) := by
+  unfold fulltextFilter at h
+  obtain ⟨p, hp, h⟩ := PRes.bind_eq_ok.mp h
+  simp only [PRes.ok.injEq, Prod.mk.injEq] at h
+  obtain ⟨rfl, rfl⟩ := h
+  exact ⟨p.1, hp, fun env => buildAndTree_eval env field _ (seqqlText_ne_nil cs p.1)⟩
+
+/-- **`in(...)` is a disjunction**: an accepted `in` filter is `( v1 , v2 ... , vn )`, each value parsed by the same
+value parser as a plain filter, and the returned node selects the union of what the values select -/
+theorem c12_in_is_disjunction (dp cs : Bool) (field : List Nat) (t : FT) (toks rest : List LTok) (a : Ast Leaf)
+    (h : filterIn dp field t cs toks = .ok (a, rest)) :
+    ∃ (r1 r2 : List LTok) (first : Ast Leaf) (items : List (Ast Leaf)) (open_ close : LTok),
+      toks = open_ :: r1 ∧ fulltextFilter dp field t cs r1 = .ok (first, r2) ∧
+      InItems dp field t cs r2 items (close :: rest) ∧ kwIn close [.rp] = true ∧
+      ∀ env, a.eval env = (first.eval env || items.any fun x => x.eval env) :=
+  (filterIn_ok h).2.2
+
 /-! ## Obligations on facts re-extracted from /repo on every run -/
 
 open SV.Extracted.C12
@@ -244,17 +353,28 @@ def subexprCondsLegacy : List String :=
    "if strings.EqualFold(fieldName, \"not\")", "if err != nil", "if fieldName == \"\"", "if indexType == seq.TokenizerTypeNoop",
    "if err != nil"]
 
-/-- the sub-expression parsers are the modelled ones; the nesting limit is either absent (`maxNest = none`) or it is
-the first statement, followed by the increment and the deferred decrement of the counter - exactly the `tooDeep`
-check of the model with the extracted limit -/
+/-- the sub-expression parsers are the modelled ones and the nesting limit (fix d02c6b6) is in place: the check
+`nesting >= maxQueryNesting -> return error` is the first statement, followed by the increment and the deferred
+decrement of the counter - exactly the `tooDeep` check of the model with the extracted limit -/
 theorem c12_x_nesting :
-    ((seqqlMaxNest = none ∧ seqqlSubexprConds = subexprCondsSeqQL ∧ seqqlNestingStmts = []) ∨
-     (seqqlMaxNest.isSome = true ∧ seqqlSubexprConds = "if lex.nesting >= maxQueryNesting" :: subexprCondsSeqQL ∧
-      seqqlNestingStmts = ["if lex.nesting >= maxQueryNesting { return nil, fmt.Errorf(\"", "lex.nesting++", "defer func() { lex.nesting-- }()"])) ∧
-    ((legacyMaxNest = none ∧ legacySubexprConds = subexprCondsLegacy ∧ legacyNestingStmts = []) ∨
-     (legacyMaxNest.isSome = true ∧ legacySubexprConds = "if qp.nesting >= maxQueryNesting" :: subexprCondsLegacy ∧
-      legacyNestingStmts = ["if qp.nesting >= maxQueryNesting { return nil, qp.errorWrap(", "qp.nesting++", "defer func() { qp.nesting-- }()"])) := by
+    (seqqlMaxNest.isSome = true ∧ seqqlSubexprConds = "if lex.nesting >= maxQueryNesting" :: subexprCondsSeqQL ∧
+      seqqlNestingStmts = ["if lex.nesting >= maxQueryNesting { return nil, fmt.Errorf(\"", "lex.nesting++", "defer func() { lex.nesting-- }()"]) ∧
+    (legacyMaxNest.isSome = true ∧ legacySubexprConds = "if qp.nesting >= maxQueryNesting" :: subexprCondsLegacy ∧
+      legacyNestingStmts = ["if qp.nesting >= maxQueryNesting { return nil, qp.errorWrap(", "qp.nesting++", "defer func() { qp.nesting-- }()"]) := by
   decide
+
+/-- **Bounded recursion at the extracted limit**: in both parsers a sub-expression parser entered at nesting
+`maxQueryNesting` or deeper returns an error immediately, for every token list and mapping. -/
+theorem c12_nesting_bounded_extracted (m : Nat → FType) (f : Nat) (toks : List Tok) (d n : Nat) :
+    (∃ mx, seqqlMaxNest = some mx ∧ (mx ≤ n → sqSub (tokSeqQL seqqlDefaultPanics seqqlMaxNest m) (f+1) toks d n = .err)) ∧
+    (∃ mx, legacyMaxNest = some mx ∧ (mx ≤ n → lgSub (tokLegacy legacyDefaultPanics legacyMaxNest m) (f+1) toks d n = .err)) := by
+  have h1 : seqqlMaxNest.isSome = true := by decide
+  have h2 : legacyMaxNest.isSome = true := by decide
+  obtain ⟨mx1, e1⟩ := Option.isSome_iff_exists.mp h1
+  obtain ⟨mx2, e2⟩ := Option.isSome_iff_exists.mp h2
+  refine ⟨⟨mx1, e1, fun hn => ?_⟩, ⟨mx2, e2, fun hn => ?_⟩⟩
+  · exact (c12_nesting_bounded (tokSeqQL seqqlDefaultPanics seqqlMaxNest m) mx1 (by simp [tokSeqQL, e1]) f toks d n hn).1
+  · exact (c12_nesting_bounded (tokLegacy legacyDefaultPanics legacyMaxNest m) mx2 (by simp [tokLegacy, e2]) f toks d n hn).2
 
 /-- the field type switches handle keyword, path and text and return an error otherwise (no `panic` in `default:`) -/
 theorem c12_x_type_switch :
@@ -291,6 +411,23 @@ example : sqParse (tokSeqQL false (some 3) (fun _ => .keyword)) [.not, .not, .no
 /-- an error, not a panic, for the object field in the repaired code; an unbalanced bracket is an error -/
 example : sqParse (tokSeqQL false none (fun _ => .object)) [.atom 0 0 .plain] = .err := by decide
 example : sqParse (tokSeqQL false none (fun _ => .keyword)) [.lp, .atom 0 0 .plain] = .err := by decide
+/-- level B: `ft:"ab cd"` on a text field (one quoted token) is the conjunction of two literals -/
+example :
+    fulltextFilter false [102, 116] .text true
+      [⟨[⟨[97], 97, true, false, false, 97⟩, ⟨[98], 98, true, false, false, 98⟩, ⟨[32], 32, false, false, false, 32⟩,
+         ⟨[99], 99, true, false, false, 99⟩, ⟨[100], 100, true, false, false, 100⟩], true, false, .none⟩]
+    = .ok (.bin .and (.leaf (.lit [102, 116] [⟨false, [97, 98]⟩])) (.leaf (.lit [102, 116] [⟨false, [99, 100]⟩])), []) := by decide
+
+/-- level B: `f : in ( a , b )` with the nil mapping parses to `f:a or f:b` -/
+example :
+    let a : LTok := ⟨[⟨[97], 97, true, false, false, 97⟩], false, false, .none⟩
+    let b : LTok := ⟨[⟨[98], 98, true, false, false, 98⟩], false, true, .none⟩
+    let f : LTok := ⟨[⟨[102], 102, true, false, false, 102⟩], false, false, .none⟩
+    let kwt (k : KW) (c : Nat) : LTok := ⟨[⟨[c], c, false, false, false, c⟩], false, false, k⟩
+    parseSeqQL ⟨false, true, none⟩ (some 1000) [f, kwt .colon 58, ⟨[⟨[105], 105, true, false, false, 105⟩, ⟨[110], 110, true, false, false, 110⟩], false, false, .in_⟩,
+      kwt .lp 40, a, kwt .comma 44, b, kwt .rp 41]
+    = .ok (.bin .or (.leaf (.lit [102] [⟨false, [97]⟩])) (.leaf (.lit [102] [⟨false, [98]⟩])), []) := by decide
+
 /-- the hypotheses of `c12_total_old_partial` are satisfiable -/
 example : ∀ fid : Nat, (FType.searchable ((fun (_ : Nat) => FType.text) fid)) = true ∨ (fun (_ : Nat) => FType.text) fid = FType.noop :=
   fun _ => Or.inl rfl
